@@ -105,7 +105,7 @@ fn run(prop: &str, tier: Tier) -> i32 {
         // every chunk size x coding x waker discipline x payload against a fixed set of history shapes
         let zoo = mc::stream_mc::stream_zoo(prop, tier);
         run.extra.insert("stream_zoo_histories".into(), serde_json::json!(zoo.evaluations));
-        rule_suffix.push_str("; plus the streaming 'zoo': 21 history shapes (every operation incl. write_vectored, write!, abort and body drop; write sizes 1, c-1, c, c+1, 3c+1, 70001) x chunk size {1,2,3,7,8,19,255,256,512,1000,4096,16384,65536} x {identity, gzip level 0/1/6/9} x {same waker, fresh waker per poll} x {incompressible, 'a'-run}; plus histories of two bodies in one process (a first one aborted / dropped with unread chunks, then an ordinary one, which is judged)");
+        rule_suffix.push_str("; plus the streaming 'zoo': 25 history shapes (every operation incl. write_vectored, write!, abort and body drop; write sizes 1, c-1, c, c+1, 3c+1, 70001) x chunk size {1,2,3,7,8,19,255,256,512,1000,4096,16384,65536} x {identity, gzip level 0/1/6/9} x {same waker, fresh waker per poll} x {incompressible, 'a'-run}; plus histories of two bodies in one process (a first one aborted / dropped with unread chunks, then an ordinary one, which is judged)");
         pre.merge(zoo);
     }
     let mut st = f(&mut run);
